@@ -283,7 +283,8 @@ def run(ctx):
     counts = summ["counts"]
     ctx.log("replayed %d transitions: %s" % (summ["cases"], {k: counts[k] for k in sorted(counts) if k.startswith("op_")}))
     for need in ("values_compared", "derivs_compared", "cdf_points", "pmf_points", "type_pairs", "get_checks",
-                 "ctor_invalid", "set_invalid", "clones", "weight_sums", "config_imports"):
+                 "ctor_invalid", "set_invalid", "clones", "weight_sums", "config_imports",
+                 "storage_sparse", "storage_sparse0", "storage_view", "special_points", "cdf_exact_points"):
         if not counts.get(need):
             raise vlib.Infra("vacuity: driver counter %s is zero" % need)
     trace, rsum, accepted = do_trace(ctx, binary, cases, "cdf")
